@@ -26,22 +26,29 @@ class NumberTree:
             self.limits = list_value(self._obj["Limits"])
 
     def _parse(self, visited: Optional[Set[int]] = None) -> List[Tuple[int, Any]]:
+        # The tree is walked with an explicit stack: it may be nested deeper
+        # than the interpreter's recursion limit.
         items = []
-        if self.nums:  # Leaf node
-            for k, v in choplist(2, self.nums):
-                items.append((int_value(k), v))
-
-        if self.kids:  # Root or intermediate node
-            if visited is None:
-                visited = set()
-            for child_ref in self.kids:
+        if visited is None:
+            visited = set()
+        stack: List[Any] = [self]
+        while stack:
+            node = stack.pop()
+            if not isinstance(node, NumberTree):
                 # a node that is reachable from itself is visited only once
-                objid = getattr(child_ref, "objid", None)
+                objid = getattr(node, "objid", None)
                 if objid is not None:
                     if objid in visited:
                         continue
                     visited.add(objid)
-                items += NumberTree(child_ref)._parse(visited)
+                node = NumberTree(node)
+
+            if node.nums:  # Leaf node
+                for k, v in choplist(2, node.nums):
+                    items.append((int_value(k), v))
+
+            if node.kids:  # Root or intermediate node
+                stack.extend(reversed(list(node.kids)))
 
         return items
 
